@@ -102,28 +102,32 @@ def maxInt64 : Int := 2^63 - 1
 structure Num where
   i : Int
   isInf : Bool
+  isNaN : Bool := false
 deriving DecidableEq, Repr
 
 /-- the float branch of Value.number (value_number.go:175-213) -/
 def numberOfFloat : FV → Num
-  | .nan => ⟨0, false⟩
-  | .inf s => ⟨if s then minInt64 else maxInt64, true⟩
+  | .nan => ⟨0, false, true⟩
+  | .inf s => ⟨if s then minInt64 else maxInt64, true, false⟩
   | .fin s m e =>
     let t := truncInt (.fin s m e)
-    if t ≥ (2^63 : Int) then ⟨maxInt64, false⟩
-    else if t ≤ -(2^63 : Int) then ⟨minInt64, false⟩
-    else ⟨t, false⟩
+    if t ≥ (2^63 : Int) then ⟨maxInt64, false, false⟩
+    else if t ≤ -(2^63 : Int) then ⟨minInt64, false, false⟩
+    else ⟨t, false, false⟩
 
 /-- Value.number().int64 and `kind == numberInfinity` (value_number.go:149) -/
 def number (E : Env) (v : Val) : Num :=
   match v with
-  | .int .i8 i => ⟨i, false⟩
-  | .int .i16 i => ⟨i, false⟩
-  | .int .u8 i => ⟨i, false⟩
-  | .int .u16 i => ⟨i, false⟩
-  | .int .u32 i => ⟨i, false⟩
-  | .int .int i => ⟨i, false⟩
-  | .int .i64 i => ⟨i, false⟩
+  | .int .i8 i => ⟨i, false, false⟩
+  | .int .i16 i => ⟨i, false, false⟩
+  | .int .u8 i => ⟨i, false, false⟩
+  | .int .u16 i => ⟨i, false, false⟩
+  | .int .u32 i => ⟨i, false, false⟩
+  | .int .int i => ⟨i, false, false⟩
+  | .int .i64 i => ⟨i, false, false⟩
+  | .int .i32 i => ⟨i, false, false⟩
+  | .int .u64 i => if i ≤ maxInt64 then ⟨i, false, false⟩ else numberOfFloat (toFloat E.c5 v)
+  | .int .uint i => if i ≤ maxInt64 then ⟨i, false, false⟩ else numberOfFloat (toFloat E.c5 v)
   | _ => numberOfFloat (toFloat E.c5 v)
 
 /-- a double that is already integral-or-special, as an extended integer: NaN ↦ 0, ±Inf stay, a finite
@@ -147,23 +151,25 @@ def strLength (s : List Nat) : Nat := if isASCII s then s.length else (U s).leng
 /-- stringObjecter.At -/
 def strAt (s : List Nat) (i : Nat) : Nat := if isASCII s then s.getD i 0 else (U s).getD i 0
 
-/-- stringAt (type_string.go:69) -/
-def stringAt (s : List Nat) (index : Int) : Nat :=
-  if 0 ≤ index ∧ index < strLength s then strAt s index.toNat else runeError
+/-- stringAt (type_string.go): the code unit and `true`, or `false` (here `none`) out of range -/
+def stringAt (s : List Nat) (index : Int) : Option Nat :=
+  if 0 ≤ index ∧ index < strLength s then some (strAt s index.toNat) else none
 
 /-- builtinStringCharAt (after fix 6afda39: the receiver is ToString'd and wrapped by newStringObject) -/
 def charAt (E : Env) (r : Recv) (args : List Val) : Res :=
   if !coercible r then .throwType else
   let idx := (number E (argAt args 0)).i
-  let chr := stringAt (thisString E r) idx
-  if chr = runeError then .str [] else .str (U (encodeRune chr))
+  match stringAt (thisString E r) idx with
+  | none => .str []
+  | some chr => .str (U (encodeRune chr))            -- string(chr): a surrogate unit becomes U+FFFD
 
 /-- builtinStringCharCodeAt -/
 def charCodeAt (E : Env) (r : Recv) (args : List Val) : Res :=
   if !coercible r then .throwType else
   let idx := (number E (argAt args 0)).i
-  let chr := stringAt (thisString E r) idx
-  if chr = runeError then .nan else .int chr
+  match stringAt (thisString E r) idx with
+  | none => .nan
+  | some chr => .int chr
 
 /-- String object `length` (type_string.go:80) -/
 def length (_E : Env) (r : Recv) : Res :=
@@ -171,10 +177,15 @@ def length (_E : Env) (r : Recv) : Res :=
   | .strObj s => .int (strLength s)
   | _ => .undef
 
-/-- stringToArrayIndex (otto_.go:33) -/
+/-- strconv.FormatInt(i, 10) for i ≥ 0 -/
+def formatNat (n : Nat) : List Nat := (Nat.toDigits 10 n).map (·.toNat)
+
+/-- stringToArrayIndex (otto_.go:33; since fix da2af68 only the canonical numeral is an index) -/
 def stringToArrayIndex (name : List Nat) : Int :=
   match GoStd.parseInt name 10 with
-  | .ok i => if i < 0 then -1 else if i ≥ 4294967295 then -1 else i
+  | .ok i =>
+    if i < 0 then -1 else if i ≥ 4294967295 then -1
+    else if formatNat i.toNat ≠ name then -1 else i
   | _ => -1
 
 /-- stringGetOwnProperty (type_string.go:106), for names that are not ordinary own properties -/
@@ -183,8 +194,9 @@ def index (E : Env) (r : Recv) (key : Val) : Res :=
   | .strObj s =>
     let idx := stringToArrayIndex (toStr E key)
     if idx ≥ 0 then
-      let chr := stringAt s idx
-      if chr ≠ runeError then .str (U (encodeRune chr)) else .undef
+      match stringAt s idx with
+      | some chr => .str (U (encodeRune chr))
+      | none => .undef
     else .undef
   | _ => .undef
 
@@ -228,37 +240,57 @@ def lastIndexRune (s t : List Nat) : Int :=
   | some i => utf16Length (s.take i)
   | none => -1
 
-/-- builtinStringIndexOf -/
+/-- the loop of utf16Prefix over the (rune, width) segmentation of s -/
+def utf16PrefixAux : List (Nat × Nat) → Nat → Nat → Nat → Nat × Nat
+  | [], _, off, units => (off, units)
+  | (r, w) :: rest, pos, off, units =>
+    let size := if r ≥ 0x10000 then 2 else 1
+    if units + size > pos then (off, units) else utf16PrefixAux rest pos (off + w) (units + size)
+
+/-- utf16Prefix (builtin_string.go): byte length and unit count of the longest prefix of whole code
+    points with at most pos UTF-16 code units -/
+def utf16Prefix (s : List Nat) (pos : Nat) : Nat × Nat :=
+  utf16PrefixAux (GoStd.segments s.length s) pos 0 0
+
+/-- builtinStringIndexOf: the position counts UTF-16 code units -/
 def indexOf (E : Env) (r : Recv) (args : List Val) : Res :=
   if !coercible r then .throwType else
   let value := thisString E r
   let target := toStr E (argAt args 0)
   if args.length < 2 then .int (indexRune value target) else
-  let past : Res := if target.isEmpty then .int value.length else .int (-1)   -- len(value): BYTES
+  let length := utf16Length value
+  let past : Res := if target.isEmpty then .int length else .int (-1)
   let go (start : Nat) : Res :=
-    let index := indexRune (value.drop start) target                           -- value[int(start):]: BYTES
-    .int (if index ≥ 0 then index + start else index)
+    if target.isEmpty then .int start else
+    let (offset, position) := utf16Prefix value start
+    let (offset, position) :=
+      if position < start then                       -- start is the second half of a surrogate pair
+        (offset + (match decodeRune (value.drop offset) with | some (_, w) => w | none => 0), position + 2)
+      else (offset, position)
+    let index := indexRune (value.drop offset) target
+    .int (if index ≥ 0 then index + position else index)
   match toIntegerE E (argAt args 1) with
   | .ninf => go 0
   | .pinf => past
-  | .fin i => if i < 0 then go 0 else if i ≥ value.length then past else go i.toNat
+  | .fin i => if i < 0 then go 0 else if i ≥ length then past else go i.toNat
 
-/-- builtinStringLastIndexOf -/
+/-- builtinStringLastIndexOf: the position counts UTF-16 code units -/
 def lastIndexOf (E : Env) (r : Recv) (args : List Val) : Res :=
   if !coercible r then .throwType else
   let value := thisString E r
   let target := toStr E (argAt args 0)
   if args.length < 2 ∨ argAt args 1 = .undef then .int (lastIndexRune value target) else
-  let length : Int := value.length
+  let length : Int := utf16Length value
   if length = 0 then .int (lastIndexRune value target) else
   let start := number E (argAt args 1)
-  if start.isInf then .int (lastIndexRune value target) else
+  if (start.isInf ∧ start.i > 0) ∨ start.isNaN then .int (lastIndexRune value target) else
   let s0 := if start.i < 0 then 0 else start.i
-  let s0 := if s0 > length then length else s0                                  -- fix 6684245: clamp before adding
-  let end0 := wrap64 (s0 + target.length)
+  let s0 := if s0 > length then length else s0
+  if target.isEmpty then .int s0 else
+  let end0 := wrap64 (s0 + utf16Length target)
   let end1 := if end0 > length then length else end0
-  if end1 < 0 then .panic                                                       -- value[:end] with end < 0
-  else .int (lastIndexRune (value.take end1.toNat) target)
+  let (offset, _) := utf16Prefix value end1.toNat
+  .int (lastIndexRune (value.take offset) target)
 
 /-- valueToRangeIndex (otto_.go:74) -/
 def valueToRangeIndex (index length : Int) (negativeIsZero : Bool) : Int :=
@@ -286,28 +318,42 @@ def rangeStartLength (E : Env) (args : List Val) (size : Int) : Int × Int :=
   | .undef => (start, size)
   | lengthValue => (start, (number E lengthValue).i)
 
-/-- target[a:b] on a rune slice, 0 ≤ a ≤ b ≤ len -/
+/-- target[a:b] on a []uint16 slice, 0 ≤ a ≤ b ≤ len -/
 def runeSlice (target : List Nat) (a b : Int) : List Nat := (target.drop a.toNat).take (b - a).toNat
 
-/-- builtinStringSlice: RUNE offsets -/
+/-- the loop of utf16Value: true iff every surrogate is part of a pair -/
+def wellPaired : List Nat → Bool
+  | [] => true
+  | [u] => decide (u < 0xD800 ∨ u > 0xDFFF)
+  | u :: v :: rest =>
+    if u < 0xD800 ∨ u > 0xDFFF then wellPaired (v :: rest)
+    else if u < 0xDC00 ∧ 0xDC00 ≤ v ∧ v ≤ 0xDFFF then wellPaired rest
+    else false
+
+/-- utf16Value (builtin_string.go): a Go string (decoded, then seen again as code units) unless some
+    surrogate is unpaired, in which case the code units are kept as they are -/
+def utf16Value (units : List Nat) : List Nat :=
+  if wellPaired units then U (bytesOfUnits units) else units
+
+/-- builtinStringSlice: UTF-16 code-unit offsets -/
 def slice (E : Env) (r : Recv) (args : List Val) : Res :=
   if !coercible r then .throwType else
-  let target := decodeRunes (thisString E r)
+  let target := U (thisString E r)
   let (start, end_) := rangeStartEnd E args target.length false
-  if end_ - start ≤ 0 then .str [] else .str (U (encodeRunes (runeSlice target start end_)))
+  if end_ - start ≤ 0 then .str [] else .str (utf16Value (runeSlice target start end_))
 
-/-- builtinStringSubstring: RUNE offsets -/
+/-- builtinStringSubstring: UTF-16 code-unit offsets -/
 def substring (E : Env) (r : Recv) (args : List Val) : Res :=
   if !coercible r then .throwType else
-  let target := decodeRunes (thisString E r)
+  let target := U (thisString E r)
   let (start, end_) := rangeStartEnd E args target.length true
   let (start, end_) := if start > end_ then (end_, start) else (start, end_)
-  .str (U (encodeRunes (runeSlice target start end_)))
+  .str (utf16Value (runeSlice target start end_))
 
-/-- builtinStringSubstr: RUNE offsets, no checkObjectCoercible; after fix d18503f the cap test is
+/-- builtinStringSubstr: UTF-16 code-unit offsets, no checkObjectCoercible; after fix d18503f the cap test is
     `length >= size-start`, which cannot overflow -/
 def substr (E : Env) (r : Recv) (args : List Val) : Res :=
-  let target := decodeRunes (thisString E r)
+  let target := U (thisString E r)
   let size : Int := target.length
   let (start, length) := rangeStartLength E args size
   if start ≥ size then .str [] else
@@ -315,7 +361,7 @@ def substr (E : Env) (r : Recv) (args : List Val) : Res :=
   let length := if length ≥ size - start then size - start else length
   let hi := wrap64 (start + length)
   if hi < start then .panic                                                     -- slice bounds out of range
-  else .str (U (encodeRunes (runeSlice target start hi)))
+  else .str (utf16Value (runeSlice target start hi))
 
 /-- strings.genSplit(s, sep, 0, n) for a non-empty separator; n < 0 means no limit -/
 def genSplit : Nat → List Nat → List Nat → Int → List (List Nat)
@@ -356,6 +402,11 @@ def split (E : Env) (r : Recv) (args : List Val) : Res :=
   | .undef => .arr [U target]
   | sv =>
     let separator := toStr E sv
+    if separator.isEmpty then                              -- one element per UTF-16 code unit
+      let units := U target
+      let units := if limit > 0 ∧ units.length > limit then units.take limit.toNat else units
+      .arr (units.map fun u => utf16Value [u])
+    else
     let splitLimit := if limit > 0 then limit + 1 else limit
     let sp := splitN target separator splitLimit
     let sp := if limit > 0 ∧ sp.length > limit then sp.take limit.toNat else sp
